@@ -76,6 +76,12 @@ func install(env *stick.Env, rec *recorder) {
 		}
 		name, _ := args[0].(string)
 		v, ok := ctx.Scope().Get(name)
+		// the flattened view handed to includes and callbacks must show the
+		// same binding as the lookup
+		av, aok := ctx.Scope().All()[name]
+		if ok != aok || (ok && Repr(v) != Repr(av)) {
+			return fmt.Sprintf("SCOPE-DISAGREES(Get=%v,%s All=%v,%s)", ok, Repr(v), aok, Repr(av))
+		}
 		if !ok {
 			return "U"
 		}
@@ -121,7 +127,7 @@ func install(env *stick.Env, rec *recorder) {
 
 	// explicit-escaping filters used by the C12 translation (core environment)
 	env.Filters["hraw"] = func(ctx stick.Context, val stick.Value, args ...stick.Value) stick.Value {
-		return stick.NewSafeValue(OwnStr(val), "html", "html_attr", "js", "css", "url")
+		return stick.NewSafeValue(ownText(val), "html", "html_attr", "js", "css", "url")
 	}
 	env.Filters["hesc"] = func(ctx stick.Context, val stick.Value, args ...stick.Value) stick.Value {
 		typ := "html"
@@ -135,7 +141,7 @@ func install(env *stick.Env, rec *recorder) {
 		if sv, ok := val.(stick.SafeValue); ok && sv.IsSafe(typ) {
 			return val
 		}
-		return stick.NewSafeValue(f(OwnStr(val)), typ)
+		return stick.NewSafeValue(f(ownText(val)), typ)
 	}
 
 	tst := func(name string, f func(ctx stick.Context, val stick.Value, args ...stick.Value) bool) {
@@ -313,4 +319,26 @@ func buildCtx(c map[string]sb.V) map[string]stick.Value {
 		out[k] = Build(v)
 	}
 	return out
+}
+
+func unwrapSafe(v stick.Value) stick.Value {
+	for i := 0; i < 64; i++ {
+		sv, ok := v.(stick.SafeValue)
+		if !ok {
+			break
+		}
+		v = sv.Value()
+	}
+	return v
+}
+
+// ownText is the text a value prints as: the harness' own rule, except for
+// values of the interface types, where the coercion rules (C15, not the
+// escaping properties) decide which interface wins.
+func ownText(val stick.Value) string {
+	switch inner := unwrapSafe(val).(type) {
+	case BoolStringer, *BoolStringer, OnlyBoolean, OnlyNumber:
+		return stick.CoerceString(inner)
+	}
+	return OwnStr(val)
 }
